@@ -57,7 +57,9 @@ func (rr *NSEC3) Cover(name string) bool {
 		return false
 	}
 
-	nextHash := rr.NextDomain
+	// The owner name is compared in upper case, so the next hashed owner
+	// name, which zone files may spell in lower case, has to be as well.
+	nextHash := strings.ToUpper(rr.NextDomain)
 
 	// if empty interval found, try cover wildcard hashes so nameHash shouldn't match with ownerHash
 	if ownerHash == nextHash && nameHash != ownerHash { // empty interval
